@@ -196,10 +196,24 @@ func c11Sequential(c *core.Ctx) {
 	t := c11Build(r)
 	s0, _ := Take(t.root)
 	desc := func(call string) map[string]any { return map[string]any{"tree": t.tree, "call": call} }
+	// the documented mode for queries is lock-free: a query that acquires a stack lock writes lock bookkeeping on a
+	// read path and can block (or deadlock against an opposite-direction comparison) behind a writer
+	lockEvents := 0
+	stackage.VerifSetHook(func(point string, id uintptr) {
+		if point == "lock.want" {
+			lockEvents++
+		}
+	})
+	defer stackage.VerifSetHook(nil)
 	run := func(recv reflect.Value, cs CallSpec, twin any, on string) bool {
 		args := c11Args(cs, twin)
 		spec := CallSpec{Method: cs.Method, Args: args, Desc: cs.Desc}
+		lockEvents = 0
 		r1, pan, msg, site := Invoke(recv, spec)
+		if lockEvents > 0 {
+			c.Violatef("query-takes-lock:"+on+"."+cs.Method, desc(cs.Desc), "query %s acquired a stack lock %d time(s): queries are documented to be lock-free", cs.Desc, lockEvents)
+			return false
+		}
 		if pan {
 			c.Violatef("panic:"+on+"."+cs.Method, desc(cs.Desc), "%s panicked (%s): %s", cs.Desc, site, msg)
 			return false
@@ -425,7 +439,7 @@ func init() {
 		Race:     true,
 		Rule: "sequential: random trees (depth <= 3; Conditions with Stack/Condition expressions, aliases, nil slots, every presentation/index option, mutex on 30% of the stacks, read-only on a third of the roots); every judged query " +
 			"(the statement's list plus every Is*/Can* method, enumerated by reflection, each with argument variants) is issued on the root, on one nested Stack and on one Condition: answer recorded, recursive VerifDump snapshot compared, " +
-			"every container in the answer overwritten, query repeated: same answer, snapshot still identical. concurrent (whole run under the Go race detector): answers of the full query list computed in isolation, then 8..16 goroutines issue random queries " +
+			"every container in the answer overwritten, query repeated: same answer, snapshot still identical; the lock-point hook must see no lock acquisition during a query. concurrent (whole run under the Go race detector): answers of the full query list computed in isolation, then 8..16 goroutines issue random queries " +
 			"against the one structure; every answer must equal the isolated one, the snapshot must be unchanged and the race log must be empty. non-trivial = tree of depth >= 2 containing a Condition; distinct = tree description.",
 		Assumptions: []string{
 			"methods are classified by name (declared mutators / unjudged getters / queries); an exported method in none of the lists makes the run inconclusive",
